@@ -37,10 +37,9 @@ def interval_cases(mode, tier):
         ops = []
         for il, iu in itertools.product((0, 1), repeat=2):
             ops.append("ic.new 0 %s %s %d %d %s" % (H(lo), H(hi), il, iu, H(prec)))
-            # [+inf,+inf] / [-inf,-inf]: the known finding (corpus/C01/02-known-isEmpty-real.txt); asking here
-            # would end the evaluation of this case at the finding
-            if not (lo == hi and abs(lo) == INF and il and iu):
-                ops.append("ic.empty 0")
+            # every pair, [+inf,+inf] / [-inf,-inf] included (formerly a known finding, now repaired:
+            # corpus/C01/02-fixed-isEmpty-infinite.txt)
+            ops.append("ic.empty 0")
             ops.append("ic.fin 0")
             for v in GRID11:
                 ops.append("ic.correct 0 %s" % H(v))
@@ -68,11 +67,9 @@ def inter_cases(mode, tier, rng):
             if tier != "thorough" and mode == "flt" and rng.random() < 0.5:
                 continue
             pa, pb = rng.choice(precs), rng.choice(precs)
-            lo, hi = max(a[0], b[0]), min(a[1], b[1])
-            known = lo == hi and abs(lo) == INF       # intersection may be [+inf,+inf] / [-inf,-inf]
             chunk += ["ic.new 0 %s %s %d %d %s" % (H(a[0]), H(a[1]), a[2], a[3], H(pa)),
                       "ic.new 1 %s %s %d %d %s" % (H(b[0]), H(b[1]), b[2], b[3], H(pb)),
-                      "ic.inter 0 1 2"] + ([] if known else ["ic.empty 2"]) + ["ic.rel 0 1", "ic.interas 0 1", "ic.rel 0 2"]
+                      "ic.inter 0 1 2", "ic.empty 2", "ic.rel 0 1", "ic.interas 0 1", "ic.empty 0", "ic.rel 0 2"]
             if len(chunk) >= 350:
                 cases.append(["case in%d %s" % (len(cases), mode)] + chunk)
                 chunk = []
